@@ -118,6 +118,20 @@ def execute(case):
             return [{"tid": case["cid"], "_acc": "vf", "err": type(e).__name__ + ": " + str(e)[:200], "events": [],
                      "_varFeatures": case["varFeatures"], "_kernKeysDiffer": any(k != keysets[0] for k in keysets)}]
     events = [e["ev"] for e in tr.events]
+    # FeaPipeline.tla, OnlyAdds: what earlier writers put into the shared feature file is still there, unchanged, after
+    # every later writer (statement texts, in order)
+    def stmts(text):
+        return [ln.strip() for ln in text.splitlines() if ln.strip() and not ln.strip().startswith("#")]
+
+    def subseq(a, b):
+        it = iter(b)
+        return all(any(x == y for y in it) for x in a)
+
+    by_compile = {}
+    for e in tr.events:
+        if e["ev"] == "Writer":
+            by_compile.setdefault(e.get("compilerId", 0), []).append(stmts(e.get("fea", "")))
+    writers_only_add = all(subseq(a, b) for wtexts in by_compile.values() for a, b in zip(wtexts, wtexts[1:]))
     data, vf = project.save_reload(vf)
     ds2 = dsbuild.build_designspace(fam, lib)
     if case["flavor"] == "tt":
@@ -140,7 +154,8 @@ def execute(case):
         adv = max(abs(hm_i[n][0] - hm_m[n][0]) for n in inst.getGlyphOrder() if n in hm_m.metrics)
         tid = f"{case['cid']}/m{k}"
         recs.append({"tid": tid + "/vf", "_acc": "vf", "outlineDiffMilli": int(worst * 1000), "advDiff": int(adv), "structSame": same_struct,
-                     "glyphsSame": same_glyphs, "events": events, "varFeatures": case["varFeatures"], "_sig": [case["cid"], k], "_k": k})
+                     "glyphsSame": same_glyphs, "events": events, "varFeatures": case["varFeatures"], "writersOnlyAdd": writers_only_add,
+                     "_sig": [case["cid"], k], "_k": k})
         if not case["prodNames"]:
             mcase = {"ufo": m["ufo"], "q": 1}
             kr = layout_exec.kern_record(mcase, inst, tid + "/kern")
